@@ -22,7 +22,7 @@ ENGINE = "WRK-api"
 TECHNIQUE = ("explicit-state search over load histories through the embedding API on fresh Machines; invariant: "
              "footprint counters and probe answers after k loads equal those after one load")
 RULE = ("programs = subsets of 10 declaration features (quick: empty, singles, pairs, all = 57; thorough: all 1024) x "
-        "{load_module_string, consult_module_string} x histories of 1..4 loads (thorough: also P,P',P). "
+        "{load_module_string, consult_module_string, consult/1 of a file} x histories of 1..4 loads (thorough: also P,P',P). "
         "Non-trivial: the program has a dynamic/discontiguous/multifile/op feature.")
 LEVEL_TEXT = ("every program of the grammar is loaded 1-4 times through both public load APIs; growth of any footprint "
               "counter or a change of any probe answer between the first and a later load is detected")
@@ -51,7 +51,7 @@ PROBE = ("L = [" + ",".join("R%d,C%d" % (i, i) for i in range(len(PREDS))) + ",O
                    % (i, p, i, i, i, i, i, i, i, p, i, i, i, i, i, i)
                    for i, p in enumerate(PREDS)) +
          ", findall(P-T, current_op(P, T, zzvx_op), Ops).")
-APIS = ["load", "consult"]
+APIS = ["load", "consult", "file"]
 COUNTERS = ["heap_cells", "stack_top", "trail_len", "load_contexts", "inactive_load_states", "f64_entries", "atoms_with_prefix"]
 
 
@@ -94,13 +94,29 @@ def history(w, ops):
 def run_program(w, sub, api, other=None):
     """-> list of (violation kind, detail)"""
     text = text_of(sub)
-    load = {"k": api, "module": "user", "text": text}
+    if api == "file":
+        # the program in a file, consulted by a goal (the loader's reload-in-situ path)
+        import os
+        d = os.path.join(pool.WORK, "c35", str(os.getpid()))
+        os.makedirs(d, exist_ok=True)
+        path = os.path.join(d, "prog_%s.pl" % "_".join(map(str, sub)))
+        with open(path, "w") as f:
+            f.write(text)
+        load = {"k": "query", "text": "consult('%s')." % path, "take": None}
+        if other is not None:
+            opath = os.path.join(d, "other.pl")
+            with open(opath, "w") as f:
+                f.write(text_of(other))
+    else:
+        load = {"k": api, "module": "user", "text": text}
     fp = {"k": "footprint", "prefix": "zzvx_"}
     probe = {"k": "query", "text": PROBE, "take": None}
     h1 = history(w, [load, fp, probe])
     seq = [load, load, fp, load, fp, load, fp, probe]
     if other is not None:
-        seq = [load, {"k": api, "module": "user", "text": text_of(other)}, load, fp, probe]
+        oload = ({"k": "query", "text": "consult('%s')." % opath, "take": None} if api == "file"
+                 else {"k": api, "module": "user", "text": text_of(other)})
+        seq = [load, oload, load, fp, probe]
     h2 = history(w, seq)
     v = []
     for h in (h1, h2):
